@@ -240,11 +240,11 @@ func fmtInt(n int) string {
 // protected fields either takes the struct's mutex in its entry block (Lock + a
 // deferred Unlock) or is only ever called from methods that do.
 type lockResult struct {
-	Fn     *ssa.Function
-	Field  string
-	Pos    token.Pos
-	OK     bool
-	Why    string
+	Fn    *ssa.Function
+	Field string
+	Pos   token.Pos
+	OK    bool
+	Why   string
 }
 
 func (p *Program) lockDiscipline(pkgShort, typeName string, fields []string, lockCallee, unlockCallee string) []lockResult {
